@@ -183,6 +183,19 @@ def genDataset {G : Type} (P : PRNG G) (st : Store G) (a : SeedArg) (jobs : List
     Option (List (List Int) × Store G) :=
   (genDatasetOn P st (toStream P a) jobs).map fun r => (r.1, r.2.1)
 
+/-- `generate_dataset_from_prob_dists(prob_dists, data_nums, seeds_or_generators)` with a *list* of arguments: entry `i`
+is `generate_data_from_prob_dist(prob_dists[i], data_nums[i], seeds_or_generators[i])`, evaluated in order (each int
+gets its own fresh generator, generator objects and the global state advance from entry to entry) -/
+def genDatasetArgs {G : Type} (P : PRNG G) : Store G → List (SeedArg × List Rat × Nat) → Option (List (List Int) × Store G)
+  | st, [] => some ([], st)
+  | st, (a, probs, n) :: rest =>
+    match genData P st a probs n with
+    | none => none
+    | some (d, st') =>
+      match genDatasetArgs P st' rest with
+      | none => none
+      | some (ds, st'') => some (d :: ds, st'')
+
 /-- `generate_empi_dist_sequence_from_prob_dist` on a converted stream: one multinomial draw per sample size -/
 def genEmpiSeqOn {G : Type} (P : PRNG G) : Store G → Stream G → List Rat → List Int →
     Option (List (Int × List Rat) × Store G × Stream G)
